@@ -155,6 +155,9 @@ func genLen(r *hx.Rand) int {
 	case 1:
 		return 0xfc + r.Intn(6)
 	case 2:
+		if r.Chance(20) {
+			return []int{1023, 1024, 1025, 4096, 65535, 65536}[r.Intn(6)]
+		}
 		return 1
 	default:
 		return r.Intn(24)
@@ -201,6 +204,60 @@ func genVal(r *hx.Rand, depth int, inRange bool) interface{} {
 	}
 }
 
+// lists around MAX_PARAM_LENGTH (1024) and well beyond, cheap elements; top level or nested in a small list
+var bigLens = []int{1023, 1024, 1025, 1500, 4096}
+
+func cheap(r *hx.Rand, k int) interface{} {
+	switch k {
+	case 0:
+		return r.Bool()
+	case 1:
+		return []byte{}
+	case 2:
+		return big.NewInt(int64(r.Intn(7)) - 3)
+	default:
+		return []interface{}{}
+	}
+}
+
+func bigList(r *hx.Rand, n int, nested int) interface{} {
+	k := r.Intn(4)
+	l := make([]interface{}, n)
+	for i := range l {
+		l[i] = cheap(r, k)
+	}
+	var v interface{} = l
+	for d := 0; d < nested; d++ {
+		switch r.Intn(3) {
+		case 0:
+			v = []interface{}{v}
+		case 1:
+			v = []interface{}{r.Bool(), v, "tail"}
+		default:
+			v = []interface{}{[]byte{1}, v}
+		}
+	}
+	return v
+}
+
+func genBig(r *hx.Rand) interface{} {
+	return bigList(r, bigLens[r.Intn(len(bigLens))]+[]int{0, 0, 0, -1, 1}[r.Intn(5)]*r.Intn(2), r.Intn(3))
+}
+
+func hasBig(v interface{}) bool {
+	if l, ok := v.([]interface{}); ok {
+		if len(l) >= 1000 {
+			return true
+		}
+		for _, e := range l {
+			if hasBig(e) {
+				return true
+			}
+		}
+	}
+	return false
+}
+
 func nest(depth int, inner []byte) []byte {
 	var b []byte
 	for i := 0; i < depth; i++ {
@@ -210,6 +267,22 @@ func nest(depth int, inner []byte) []byte {
 }
 
 func genBytes(r *hx.Rand) []byte {
+	if r.Chance(2) { // long lists: valid, count off by one, truncated
+		e, _ := codec.EncodeValue(genBig(r))
+		switch r.Intn(4) {
+		case 0:
+			if p := bytes.Index(e, []byte{0x10, 0xff, 0x03}); p >= 0 {
+				e[p+1]++
+			} else if p := bytes.Index(e, []byte{0x10, 0x00, 0x04}); p >= 0 {
+				e[p+1]++
+			} else if p := bytes.Index(e, []byte{0x10, 0x01, 0x04}); p >= 0 {
+				e[p+1]--
+			}
+		case 1:
+			e = e[:len(e)-1-r.Intn(3)]
+		}
+		return e
+	}
 	switch r.Intn(12) {
 	case 0, 1, 2: // valid encoding, maybe with a tail
 		e, _ := codec.EncodeValue(genVal(r, 4, true))
@@ -303,7 +376,11 @@ func gen(r *hx.Rand, tier string, i int) string {
 	switch r.Intn(10) {
 	case 0, 1, 2:
 		var t []string
-		toks(genVal(r, 5, r.Chance(80)), &t)
+		if r.Chance(3) {
+			toks(genBig(r), &t)
+		} else {
+			toks(genVal(r, 5, r.Chance(80)), &t)
+		}
 		return "E " + strings.Join(t, " ")
 	case 3:
 		pre := []byte{0}
@@ -419,6 +496,9 @@ func exec(line string) hx.Result {
 			return hx.Result{Out: "err:range", Kind: "E:err:range", Key: line}
 		}
 		res := hx.Result{Out: hx.Hex(enc), Kind: "E:" + kindOf(v), Key: line}
+		if hasBig(v) {
+			res.Kind = "E:list>=1000"
+		}
 		src := common.NewZeroCopySource(enc)
 		back, err := codec.DecodeValue(src)
 		if err != nil {
@@ -438,6 +518,9 @@ func exec(line string) hx.Result {
 			return hx.Result{Out: k, Kind: "D:" + k, Key: line}
 		}
 		res := hx.Result{Out: show(v) + fmt.Sprintf(" off=%d", src.Pos()), Kind: "D:" + kindOf(v), Key: line}
+		if hasBig(v) {
+			res.Kind = "D:list>=1000"
+		}
 		// what was accepted is exactly what the encoder writes for the decoded value
 		re, err := codec.EncodeValue(v)
 		if err != nil {
@@ -467,15 +550,43 @@ func exec(line string) hx.Result {
 	return hx.Result{Out: "bad-op"}
 }
 
+func eLine(v interface{}) string {
+	var t []string
+	toks(v, &t)
+	return "E " + strings.Join(t, " ")
+}
+
+func dLineOf(v interface{}) string {
+	e, _ := codec.EncodeValue(v)
+	return "D " + hx.Hex(e)
+}
+
+func bigCorpus() []string {
+	var out []string
+	for i, n := range []int{1023, 1024, 1025, 1500, 4096} {
+		r := hx.NewRand(uint64(77 + i))
+		top, nested, deep := bigList(r, n, 0), bigList(r, n, 1), bigList(r, n, 2)
+		out = append(out, eLine(top), eLine(nested), eLine(deep), dLineOf(top), dLineOf(nested), dLineOf(deep))
+		e, _ := codec.EncodeValue(nested)
+		out = append(out, "C "+hx.Hex(append([]byte{0}, e...)), nLine(append([]byte("evt\x00"), e...)))
+	}
+	for _, n := range []int{1023, 1024, 1025, 4096, 65535, 65536} {
+		b := make([]byte, n)
+		out = append(out, eLine(b), eLine(string(b)), dLineOf([]interface{}{b, true}))
+	}
+	return out
+}
+
 func main() {
 	hx.Main(hx.Prop{
 		ID: "C25",
 		Rule: "E: random values (all 7 kinds, nesting <= 5, integers at the i128 boundaries and beyond, lengths 0/0xfc..0x101) encoded by the real EncodeValue and decoded back; " +
 			"D/C/N: real decoders on valid encodings (plain, with tail, truncated, one byte changed), hostile counts (0xffffffff...), nesting up to 60 (3000 in the corpus), " +
-			"irregular booleans, short fixed-size items, random bytes, wrong prefixes. Non-trivial = distinct line; kinds = op:outcome/value kind (listN = nesting depth)",
+			"irregular booleans, short fixed-size items, random bytes, wrong prefixes; lists of 1023/1024/1025/1500/4096 cheap elements (MAX_PARAM_LENGTH = 1024 and beyond), top level and nested up to 2 deep, " +
+			"valid / count off by one / truncated, in the corpus (E, D, C, N) and in ~3% of generated lines; byte arrays and strings of 1023..65536 bytes. Non-trivial = distinct line; kinds = op:outcome/value kind (listN = nesting depth)",
 		Gen:  gen,
 		Exec: exec,
-		Corpus: []string{
+		Corpus: append(bigCorpus(), []string{
 			"D -", "D 10", "D 1000000000", "D 10ffffffff", "D 10ffffffff0301", "D 0302", "D 0300", "D 0301ff", "D 06", "D ff",
 			"D 00ffffffff", "D 0000000000", "D 0001000000", "D 000100000041", "D 01020000004142",
 			"D 04ffffffffffffffffffffffffffffff7f", "D 0400000000000000000000000000000080", "D 04ffffffffffffffffffffffffffffffff",
